@@ -698,7 +698,11 @@ func (s *Server) handlePAP(session *Session, data []byte) {
 	var authenticated bool
 	var authResp *radius.AuthResponse
 
-	if s.radiusClient != nil {
+	if s.radiusClient != nil && passwordLen == 0 {
+		// An empty password would be sent to RADIUS without a User-Password attribute, so an
+		// Access-Accept for the bare user name would authenticate the peer: refuse it here.
+		authenticated = false
+	} else if s.radiusClient != nil {
 		var err error
 		ctx, cancel := context.WithTimeout(context.Background(), 30*time.Second)
 		defer cancel()
